@@ -1155,7 +1155,12 @@ void XMLScanner::scanPI()
             {
                 // It must be followed by '>' to be a termination of the target
                 if (fReaderMgr.skippedChar(chCloseAngle))
+                {
+                    // an unpaired leading surrogate directly before the terminator
+                    if (gotLeadingSurrogate)
+                        emitError(XMLErrs::Expected2ndSurrogateChar);
                     break;
+                }
             }
 
             // Check for correct surrogate pairs
